@@ -9,6 +9,7 @@ CONSTANTS
   Kinds = {"iso","npoint","array","rodgers"}
   Rule = "spec"
   RodVariant = "spec"
+  SignedNodes = "no"
   Export = TRUE
 INVARIANT InvalidNeverNaN
 INVARIANT OnePerLayer
@@ -18,6 +19,8 @@ INVARIANT WithinControlRange
 INVARIANT ConstantWhenControlsEqual
 INVARIANT NPointRejectedIff
 INVARIANT StrictImpliesInvalid
+INVARIANT NonPositiveNodeIsInverted
+INVARIANT SignedAgreesOnPositive
 INVARIANT GuillotListedRejected
 INVARIANT GuillotPhysicalAccepted
 INVARIANT FitsInv
